@@ -906,7 +906,7 @@ def const_str(o):
 # decision tables and symbolic inlining
 
 
-def decision_paths(body, max_paths=4000, start=0, stop=None, trace=False):
+def decision_paths(body, max_paths=4000, start=0, stop=None, trace=False, track_op_assign=False):
     """Path-sensitive symbolic walk: enumerate acyclic paths entry -> return, executing assignments symbolically.
     Each result: (conds, ret_expr, last_bb) where conds is a list of (discr_expr, value) for every SwitchInt taken
     (value = matched int or ('otherwise', (v1, v2, ..))) and ret_expr the value of _0 on that path. Paths ending in
@@ -973,6 +973,15 @@ def decision_paths(body, max_paths=4000, start=0, stop=None, trace=False):
         trail = trail + (bb,) if trace else trail
         for s in body.blocks[bb]["stmts"]:
             if s["k"] == "assign":
+                if track_op_assign and not s["lhs"].get("p") and s["rv"]["k"] == "ref" and s["rv"].get("mut"):
+                    # remember which plain local a `&mut` temporary points to (directly or through a reborrow)
+                    refs = dict(env.get(-1, {}))
+                    src = s["rv"]["pl"]
+                    if not src.get("p"):
+                        refs[s["lhs"]["l"]] = src["l"]
+                    elif src["p"] == ["*"] and src["l"] in refs:
+                        refs[s["lhs"]["l"]] = refs[src["l"]]
+                    env[-1] = refs
                 if not s["lhs"].get("p"):
                     env[s["lhs"]["l"]] = rvalue(env, s["rv"])
                 elif len(s["lhs"]["p"]) == 1 and isinstance(s["lhs"]["p"][0], dict) and s["lhs"]["p"][0].get("n", "").isdigit():
@@ -1000,6 +1009,13 @@ def decision_paths(body, max_paths=4000, start=0, stop=None, trace=False):
             fname = norm(f.get("res") or f.get("fn")) if f.get("k") == "const" and "fn" in f else ("indirect", operand(env, f))
             if not t["dest"].get("p"):
                 env[t["dest"]["l"]] = ("call", fname, tuple(operand(env, a) for a in t["args"]))
+            if track_op_assign and isinstance(fname, str) and len(t["args"]) == 2 and "pl" in t["args"][0] and not t["args"][0]["pl"].get("p"):
+                # `x |= y` on a newtype: BitOrAssign::bitor_assign(&mut x, y) updates the local the reference points to
+                opn = {"BitOrAssign>::bitor_assign": "BitOr", "BitAndAssign>::bitand_assign": "BitAnd", "BitXorAssign>::bitxor_assign": "BitXor"}
+                hit = [v for k2, v in opn.items() if fname.endswith(k2)]
+                tgt = env.get(-1, {}).get(t["args"][0]["pl"]["l"])
+                if hit and tgt is not None:
+                    env[tgt] = ("binop", hit[0], read_place(env, {"l": tgt, "p": []}), operand(env, t["args"][1]))
         if k == "switch":
             e = operand(env, t["discr"])
             vals = tuple(x[0] for x in t["targets"])
